@@ -66,6 +66,12 @@ static GEOSGeometry* sites_geom(const std::string& gtype, const std::vector<doub
         return GEOSGeom_createCollection_r(h, GEOS_GEOMETRYCOLLECTION, gs.data(), (unsigned)gs.size());
     }
     std::vector<GEOSGeometry*> gs;
+    if (gtype == "X") {     // collection with EMPTY members at the front, in the middle and at the end
+        gs.push_back(GEOSGeom_createEmptyPoint_r(h));
+        for (size_t i = 0; i < n; i++) { gs.push_back(GEOSGeom_createPoint_r(h, seq(xy, i, 1, k))); if (i == n / 2) gs.push_back(GEOSGeom_createEmptyLineString_r(h)); }
+        gs.push_back(GEOSGeom_createEmptyCollection_r(h, GEOS_MULTIPOINT));
+        return GEOSGeom_createCollection_r(h, GEOS_GEOMETRYCOLLECTION, gs.data(), (unsigned)gs.size());
+    }
     for (size_t i = 0; i < n; i++) gs.push_back(GEOSGeom_createPoint_r(h, seq(xy, i, 1, k)));
     return GEOSGeom_createCollection_r(h, GEOS_MULTIPOINT, gs.data(), (unsigned)gs.size());
 }
@@ -133,7 +139,9 @@ int main(int argc, char** argv) {
             GEOSGeometry* re = g ? GEOSDelaunayTriangulation_r(h, g, std::ldexp(tolnum, k), 1) : nullptr;
             out = (rt ? tris_out(rt, k) : "ERR " + e1) + " | " + (re ? edges_out(re, k) : "ERR " + lastmsg);
             if (rt) GEOSGeom_destroy_r(h, rt); if (re) GEOSGeom_destroy_r(h, re); if (g) GEOSGeom_destroy_r(h, g);
-        } else if (tag == "C") {
+        } else if (tag == "C" || tag == "G" || tag == "N") {
+            // C: POLYGON / MULTIPOLYGON; G: GEOMETRYCOLLECTION of the polygons; N: GEOMETRYCOLLECTION(GEOMETRYCOLLECTION(polygons));
+            // a part without ordinates is POLYGON EMPTY
             int k; ls >> k; std::string rest; std::getline(ls, rest);
             std::vector<GEOSGeometry*> polys;
             for (auto& ps : split(rest, '/')) {
@@ -145,7 +153,12 @@ int main(int argc, char** argv) {
                 if (rings.empty()) { polys.push_back(GEOSGeom_createEmptyPolygon_r(h)); continue; }
                 polys.push_back(GEOSGeom_createPolygon_r(h, rings[0], rings.size() > 1 ? rings.data() + 1 : nullptr, (unsigned)rings.size() - 1));
             }
-            GEOSGeometry* g = polys.size() == 1 ? polys[0] : GEOSGeom_createCollection_r(h, GEOS_MULTIPOLYGON, polys.data(), (unsigned)polys.size());
+            GEOSGeometry* g;
+            if (tag == "C") g = polys.size() == 1 ? polys[0] : GEOSGeom_createCollection_r(h, GEOS_MULTIPOLYGON, polys.data(), (unsigned)polys.size());
+            else {
+                g = GEOSGeom_createCollection_r(h, GEOS_GEOMETRYCOLLECTION, polys.data(), (unsigned)polys.size());
+                if (tag == "N") { GEOSGeometry* inner[2] = { GEOSGeom_createEmptyPolygon_r(h), g }; g = GEOSGeom_createCollection_r(h, GEOS_GEOMETRYCOLLECTION, inner, 2); }
+            }
             GEOSGeometry* r = g ? GEOSConstrainedDelaunayTriangulation_r(h, g) : nullptr;
             out = r ? tris_out(r, k) : "ERR " + lastmsg;
             if (r) GEOSGeom_destroy_r(h, r); if (g) GEOSGeom_destroy_r(h, g);
